@@ -70,5 +70,6 @@ Inspect_Decl(feats, limit) ==
   [feature_count |-> Len(fs),
    featuretype |-> Tally([i \in 1..Len(fs) |-> fs[i].ftype]),
    chrom |-> Tally([i \in 1..Len(fs) |-> fs[i].seqid]),
-   attribute_keys |-> Tally(FlatSeq([i \in 1..Len(fs) |-> fs[i].keys]))]
+   attribute_keys |-> Tally(FlatSeq([i \in 1..Len(fs) |-> fs[i].keys])),
+   start |-> Tally([i \in 1..Len(fs) |-> fs[i].n - 1])]          \* feature n of a generated file starts at coordinate n - 1 (0 for the first line)
 =============================================================================
